@@ -330,6 +330,7 @@ theorem i3_step_env (f : Sem) (j : Job) (cl : Cluster) (s s' : Sys) (wf : WF j c
     (hs : step f j cl s (.env es) = some s') : Inv3 f j cl s' := by
   simp only [step] at hs
   split at hs; · cases hs
+  rw [envStepP_eq f j s.env es h1.no_trim] at hs
   cases he : envStep f j s.env es with
   | none => simp [he] at hs
   | some e' =>
